@@ -1046,6 +1046,12 @@ class SCFGIO:
         scfg = SCFGIO.make_scfg(
             graph_dict, outer_graph, block_ref_dict, name_gen
         )
+        # The outermost regions refer to the top-level region as their
+        # parent, so restore its name.
+        for name in outer_graph:
+            parent_name = graph_dict["blocks"][name].get("parent_region")
+            if parent_name is not None:
+                object.__setattr__(scfg.region, "name", parent_name)
 
         return scfg, block_ref_dict
 
@@ -1131,6 +1137,16 @@ class SCFGIO:
                 queue.extend(edges[current_name])
 
         scfg = SCFG(scfg_graph, name_gen=name_gen)
+        for block in scfg_graph.values():
+            if isinstance(block, RegionBlock):
+                # Link the region hierarchy: the subregion knows the region
+                # that it represents and every region knows its parent.
+                assert block.subregion is not None
+                object.__setattr__(block.subregion, "region", block)
+                object.__setattr__(block, "parent_region", scfg.region)
+                for inner in block.subregion.graph.values():
+                    if isinstance(inner, RegionBlock):
+                        object.__setattr__(inner, "parent_region", block)
         return scfg
 
     @staticmethod
